@@ -7,6 +7,7 @@
 """
 import hashlib
 import itertools
+import copy
 import json
 import math
 import os
@@ -108,6 +109,9 @@ def im_content(n):
     spec["header"] = "1.2"
     spec["images"] = [IM.imgspec(i, path="Server/x86_64/iso/%s.iso" % name) for i, name in enumerate(("c-live", "a-dvd", "b-netinst", "d-boot"))]
     spec["images"][3].update({"unified": True, "additional_variants": ["Server", "Client", "Everything"]})
+    if n == 0:
+        # the same image published at a second location: everything but the path equals image 0 (legal: equal checksums)
+        spec["images"][2] = dict(copy.deepcopy(spec["images"][0]), path=spec["images"][2]["path"])
     spec["cells"] = []
     in_cell = [["add", "Server", "x86_64", i] for i in (0, 1, 2, 3)][: 4 if n == 0 else 3]
     cells = [["add", "Client", "x86_64", 0], ["add", "Server", "aarch64", 1], ["add", "Workstation", "i386", 2]]
